@@ -3702,11 +3702,18 @@ impl<'a> Parser<'a> {
         } else {
             None
         };
-        // Handle default value
-        if self.match_token(&TokenKind::Eq) {
-            // For now, skip the default value expression by parsing and ignoring it
-            let _default = self.parse_assignment_expression()?;
-        }
+        // Default value becomes AssignmentPattern
+        let pattern = if self.match_token(&TokenKind::Eq) {
+            let right = Rc::new(self.parse_assignment_expression()?);
+            let span = self.span_from(start);
+            Pattern::Assignment(AssignmentPattern {
+                left: Box::new(pattern),
+                right,
+                span,
+            })
+        } else {
+            pattern
+        };
         let span = self.span_from(start);
         Ok(FunctionParam {
             pattern,
